@@ -44,6 +44,7 @@ def run(chk):
     _, expect = W.spec_output(P, "dlpoly_table", [W.param("potentials"), W.nsym("cutoff"), W.nsym("nr")])
     I, found = W.tabulation_output(P, "DLPoly_PairTabulation", elem)
     W.compare_trees(chk, "C02.W1", "DLPoly_PairTabulation.write", I, found, expect, opts)
+    W.second_write(chk, "C02.W1", "DLPoly_PairTabulation.write", I, expect, opts)
 
     I2 = W.make_interp(P, elem=elem)
     fp = BufV("fp", is_file=True)
